@@ -7,7 +7,8 @@ extern int gh_lc_phase;
 /* output stream ghost state: data handed to the stream is first "pending" (buffered); a write to
    the destination happens on flush()/close() or whenever the buffer spills, and may fail */
 extern int g_pending;     /* some emitted data is still buffered in the stream */
-extern int g_bad;         /* the stream is in an error state (what good()/fail() report) */
+extern int g_bad;         /* badbit: a write to the destination failed */
+extern int g_failbit;     /* failbit: close() failed */
 extern int g_lost;        /* some emitted data did not reach its destination */
 extern int g_emitted;     /* number of emissions (vacuity guard) */
 extern int g_raw_emitted; /* a free-form (unescaped) string was written into the document */
